@@ -102,7 +102,7 @@ fn resolve(t: &Tag, reg: &[u8]) -> u8 {
 
 pub fn oracle(c: &Case, st: &mut Stats) -> Result<(), String> {
   let points: Vec<_> = (0..4u64).map(|i| point_from(&valid_point(1000 + i).compress().to_bytes())).collect();
-  let first = Server::new(registration_list(&c.mds)).map_err(|e| e.to_string())?;
+  let first = new_server(&c.mds).map_err(|e| e.to_string())?;
   let mut model = Model {
     registered: vec![c.mds.iter().cloned().collect()],
     pk: vec![first.get_public_key().serialize_to_bincode().map_err(|e| e.to_string())?],
@@ -228,7 +228,7 @@ pub fn oracle(c: &Case, st: &mut Stats) -> Result<(), String> {
         if i % 2 == 0 {
           imp_tags.extend(c.mds.iter().cloned());
         }
-        let mut fresh = Server::new(registration_list(&imp_tags)).map_err(|e| e.to_string())?;
+        let mut fresh = new_server(&imp_tags).map_err(|e| e.to_string())?;
         if i % 3 != 0 {
           for md in imp_tags.iter().take(12) {
             let _ = fresh.eval(&points[1], *md, i % 2 == 1);
@@ -305,7 +305,7 @@ pub fn oracle(c: &Case, st: &mut Stats) -> Result<(), String> {
         st.class("op=puncture-block");
       }
       Op::NewServer => {
-        let s = Server::new(registration_list(&c.mds)).map_err(|e| e.to_string())?;
+        let s = new_server(&c.mds).map_err(|e| e.to_string())?;
         model.registered.push(c.mds.iter().cloned().collect());
         model.pk.push(s.get_public_key().serialize_to_bincode().map_err(|e| e.to_string())?);
         handles.push(Handle { server: s, lineage: model.pk.len() - 1, punctured: BTreeSet::new() });
